@@ -24,6 +24,30 @@
 (* (validateSignature / getIDPSigningCerts / getCertBasedOnFingerprint);   *)
 (* the properties use TrustedKeys(cfg), written from the statement.        *)
 (*                                                                         *)
+(* A Signature's KeyInfo is a SEQUENCE: X509Data elements in order, each   *)
+(* with its items in order (certificates, an X509Certificate element that  *)
+(* holds none, an X509SubjectName), and KeyValue elements.  Which of the   *)
+(* certificates the SP looks at (getCertBasedOnFingerprint: the first      *)
+(* ./Signature/KeyInfo/X509Data/X509Certificate), which become roots and   *)
+(* which one goxmldsig verifies with (X509Certificates[0] of the Signature *)
+(* it found) are steps of Verify in the code's order.                      *)
+(*                                                                         *)
+(* For the artifact entry points (ParseXMLArtifactResponse, ParseResponse  *)
+(* with SAMLart) the SOAP ENVELOPE is part of the attacker-controlled      *)
+(* document: soap:Envelope / soap:Header / soap:Body are nodes, and every  *)
+(* lookup of the machine (Body in Envelope, ArtifactResponse in Body,      *)
+(* Response in the verified ArtifactResponse) says WHICH element it finds. *)
+(*                                                                         *)
+(* Deviations (constant): names of deliberate departures of the MACHINE    *)
+(* from the code, {} in every registered configuration.  Switching one on  *)
+(* gives the model-level image of a defect, and TLC then refutes the       *)
+(* invariants of the Properties section (SigTree_C01m_*.cfg):              *)
+(*  - FingerprintAnyCert: getCertBasedOnFingerprint accepts when ANY       *)
+(*    certificate in KeyInfo has the fingerprint; all of them become roots *)
+(*  - ResponseFromDocumentRoot: the Response handed to parseResponse is    *)
+(*    the first element named Response in the DOCUMENT, not the child of   *)
+(*    the ArtifactResponse whose signature was verified                    *)
+(*                                                                         *)
 (* Named deviations from the code:                                         *)
 (*  - FunctionalMachine: the SP side is deterministic, so its stages are   *)
 (*    operators composed in code order (RespSig, Fields, ActOnRespSig,     *)
@@ -40,7 +64,9 @@
 (*                                                                         *)
 (* node = [k, id, org, ed, ns, ch, key, ref, cov, ki]                      *)
 (*   k   : Resp | Assn | Sig | Obj | Wrap | EncAssn | ArtResp              *)
+(*         | Env | Body | Hdr (soap:Envelope, soap:Body, soap:Header)      *)
 (*   id  : "R0" "A0" "T0" (IDs of the base message) | "X1" "X2" (attacker) *)
+(*         "X3" (the Response inside a forged ArtifactResponse)            *)
 (*         | "-" (element without ID)                                      *)
 (*   org : "g" genuine identity content / genuine ciphertext / genuine     *)
 (*         signature;  "f" forged (attacker made)                          *)
@@ -48,12 +74,15 @@
 (*   ns  : the element is in the namespace its name suggests               *)
 (*   Sig : key in {"G" (the IdP's signing key of this run), Katt, Kenc},   *)
 (*         ref = referenced ID, cov = "R0"|"A0"|"T0" (genuine signature    *)
-(*         made over that base element) | "self", ki = KeyInfo variant     *)
-(*         cert | none | rsakeyvalue | othercert (attacker certificate on  *)
-(*         a genuine signature / trusted certificate on an attacker one)   *)
-(*         | "Kidp1" "Kidp2" "Katt" "Kenc" (that certificate, whoever      *)
-(*         signed) | "bad" (an X509Certificate element that holds no       *)
-(*         certificate)                                                    *)
+(*         made over that base element) | "self",                          *)
+(*         ki = the KeyInfo: <<>> (no KeyInfo element) or a sequence of    *)
+(*         groups; a group is <<"rsa">> (a KeyValue / RSAKeyValue element) *)
+(*         or the items of one X509Data element in order:                  *)
+(*         "self" (the signer's own certificate, as sent) | "other"        *)
+(*         (attacker certificate on a genuine signature / trusted          *)
+(*         certificate on an attacker one) | "Kidp1" "Kidp2" "Katt" "Kenc" *)
+(*         (that certificate, whoever signed) | "bad" (an X509Certificate  *)
+(*         element that holds no certificate) | "subj" (X509SubjectName)   *)
 (***************************************************************************)
 EXTENDS Integers, Sequences, FiniteSets, TLC, Json, IOUtils
 
@@ -63,6 +92,8 @@ CONSTANTS K,          \* attacker steps
           RunCfgSeq,  \* sequence of [t |-> trust configuration (record, see TC), g |-> IdP signing key]
           Prods,      \* productions the attacker uses (a subset of AllProds: the family explored)
           KISet,      \* KeyInfo variants the attacker writes
+          EnvWhereSet,\* where in the SOAP envelope the attacker places elements (a subset of EnvWheres)
+          Deviations, \* named departures of the machine from the code that are switched on ({} when registered)
           EmitMin,    \* documents with fewer attacker steps are not emitted (simulation: they are covered exhaustively)
           EmitFrom,   \* documents with n >= EmitFrom are emitted only when Chk(doc) = VERIF_SEED modulo EmitMod
           EmitMod
@@ -73,15 +104,25 @@ vars == <<base, doc, n>>
 Min(S) == CHOOSE x \in S : \A y \in S : x <= y
 
 ----------------------------------------------------------------------------
-(* trees *)
+(* trees                                                                   *)
 
 Node(k, id, org, ch) == [k |-> k, id |-> id, org |-> org, ed |-> FALSE, ns |-> TRUE, ch |-> ch,
-                         key |-> "-", ref |-> "-", cov |-> "-", ki |-> "-"]
-GSig(e)        == [Node("Sig", "-", "g", <<>>) EXCEPT !.key = "G", !.ref = e, !.cov = e, !.ki = "cert"]
+                         key |-> "-", ref |-> "-", cov |-> "-", ki |-> <<>>]
+\* a KeyInfo with one X509Data holding one item
+KI1(x)         == << <<x>> >>
+AsSent         == KI1("self")
+GSig(e)        == [Node("Sig", "-", "g", <<>>) EXCEPT !.key = "G", !.ref = e, !.cov = e, !.ki = AsSent]
 ASig(key, ki)  == [Node("Sig", "-", "f", <<>>) EXCEPT !.key = key, !.ref = "", !.cov = "self", !.ki = ki]
 Obj(ch)        == Node("Obj", "-", "f", ch)
 Wrap(ch)       == Node("Wrap", "-", "f", ch)
 EncF(ch)       == Node("EncAssn", "-", "f", ch)
+\* the SOAP envelope of the artifact back channel
+SoapKinds      == {"Env", "Body", "Hdr"}
+Env(ch)        == Node("Env", "-", "g", ch)
+Body(ch)       == Node("Body", "-", "g", ch)
+Body2(ch)      == Node("Body", "-", "f", ch)
+Hdr(ch)        == Node("Hdr", "-", "f", ch)
+InsertAt(s, i, x) == SubSeq(s, 1, i - 1) \o <<x>> \o SubSeq(s, i, Len(s))
 
 RECURSIVE At(_, _), ReplaceSeq(_, _, _), Size(_), Paths(_), AllPaths(_), PreOrder(_), PreKids(_, _),
           Norm(_), StripSigs(_), Chk(_)
@@ -95,10 +136,11 @@ ReplaceSeq(t, p, s) ==
 RemoveAt(t, p) == ReplaceSeq(t, p, <<>>)
 SetAt(t, p, x) == IF p = <<>> THEN x ELSE ReplaceSeq(t, p, <<x>>)
 
-Size(t) == 1 + (IF t.ch = <<>> THEN 0
-                ELSE LET RECURSIVE S(_)
-                         S(i) == IF i > Len(t.ch) THEN 0 ELSE Size(t.ch[i]) + S(i + 1)
-                     IN S(1))
+Size(t) == (IF t.k \in SoapKinds THEN 0 ELSE 1)      \* the bound is on the SAML content
+         + (IF t.ch = <<>> THEN 0
+            ELSE LET RECURSIVE S(_)
+                     S(i) == IF i > Len(t.ch) THEN 0 ELSE Size(t.ch[i]) + S(i + 1)
+                 IN S(1))
 
 \* paths the attacker can address: ciphertext is opaque
 Paths(t) == {<<>>} \cup (IF t.k = "EncAssn" THEN {}
@@ -124,10 +166,11 @@ StripSigs(t) == [t EXCEPT !.ch = LET keep == SelectSeq(t.ch, LAMBDA c : c.k # "S
 \* structural checksum used only to thin out the emission of the deepest level
 KCode(k) == CASE k = "Resp" -> 1 [] k = "Assn" -> 2 [] k = "Sig" -> 3 [] k = "Obj" -> 4
               [] k = "Wrap" -> 5 [] k = "EncAssn" -> 6 [] k = "ArtResp" -> 7
+              [] k = "Env" -> 8 [] k = "Body" -> 9 [] k = "Hdr" -> 10
 Chk(t) == LET RECURSIVE S(_)
               S(i) == IF i > Len(t.ch) THEN 0 ELSE ((i + 2) * Chk(t.ch[i]) + S(i + 1)) % 7919
           IN (KCode(t.k) * 31 + (IF t.org = "g" THEN 3 ELSE 5) + (IF t.ed THEN 7 ELSE 0) + (IF t.ns THEN 0 ELSE 11)
-              + (IF t.id = "X1" THEN 13 ELSE 0) + (IF t.ki = "cert" THEN 17 ELSE IF t.ki = "none" THEN 19 ELSE 23)
+              + (IF t.id = "X1" THEN 13 ELSE 0) + (IF t.ki = AsSent THEN 17 ELSE IF t.ki = <<>> THEN 19 ELSE 23 + 3 * Len(t.ki) + Len(t.ki[1]))
               + (IF t.key = "Kenc" THEN 29 ELSE 0) + 37 * S(1)) % 7919
 
 ----------------------------------------------------------------------------
@@ -137,7 +180,8 @@ OrigA(b) == Node("Assn", "A0", "g", IF b.sigA THEN <<GSig("A0")>> ELSE <<>>)
 Payload(b) == IF b.enc THEN Node("EncAssn", "-", "g", <<OrigA(b)>>) ELSE OrigA(b)
 OrigR(b) == Node("Resp", "R0", "g", (IF b.sigR THEN <<GSig("R0")>> ELSE <<>>) \o <<Payload(b)>>)
 OrigT(b) == Node("ArtResp", "T0", "g", (IF b.art = "signed" THEN <<GSig("T0")>> ELSE <<>>) \o <<OrigR(b)>>)
-BaseDoc(b) == IF b.art = "none" THEN OrigR(b) ELSE OrigT(b)
+\* browser delivery: the Response is the document; artifact resolution: the SOAP envelope is
+BaseDoc(b) == IF b.art = "none" THEN OrigR(b) ELSE Env(<<Body(<<OrigT(b)>>)>>)
 Orig(b, e) == CASE e = "A0" -> OrigA(b) [] e = "R0" -> OrigR(b) [] e = "T0" -> OrigT(b)
 \* what a genuine signature covers: the base element without that signature
 Covered(b, e) == LET o == Orig(b, e) IN [o EXCEPT !.ch = Tail(@)]
@@ -147,6 +191,7 @@ B(r, a, e, t) == [sigR |-> r, sigA |-> a, enc |-> e, art |-> t]
 \* the bases explored one attacker step deeper in the thorough tier: Response-signed, Assertion-signed and
 \* both-signed plaintext deliveries to the browser endpoints and the encrypted Assertion-signed and both-signed
 \* layouts (the artifact deliveries are reached at that depth by the simulation configuration)
+ArtBases == { b \in AllBases : b.art # "none" }
 DeepBases == { B(TRUE, FALSE, FALSE, "none"), B(FALSE, TRUE, FALSE, "none"), B(TRUE, TRUE, FALSE, "none"),
                B(FALSE, TRUE, TRUE, "none"), B(TRUE, TRUE, TRUE, "none") }
 
@@ -196,11 +241,18 @@ GetIDPSigningCerts(md) ==
 
 KeyOf(s, c)  == IF s.key = "G" THEN c.g ELSE s.key
 Attacker(k)  == k \in {"Katt", "Kenc"}
-\* the certificate a KeyInfo carries
-CertOf(s, c) == IF s.ki = "cert" THEN KeyOf(s, c)
-                ELSE IF s.ki = "othercert" THEN (IF Attacker(KeyOf(s, c)) THEN "Kidp1" ELSE "Katt")
-                ELSE s.ki
-HasCert(s)   == s.ki \notin {"none", "rsakeyvalue", "-"}             \* an X509Certificate element is there
+
+\* KeyInfo: the X509Certificate elements of a KeyInfo in document order (over all its X509Data children;
+\* a KeyValue and an X509SubjectName are no X509Certificate element), and what each of them holds
+KVGroup         == <<"rsa">>
+IsCertItem(x)   == x \notin {"rsa", "subj"}
+KICertItems(ki) == SelectSeq(Flat(ki), IsCertItem)
+CertName(x, s, c) == IF x = "self" THEN KeyOf(s, c)
+                     ELSE IF x = "other" THEN (IF Attacker(KeyOf(s, c)) THEN "Kidp1" ELSE "Katt")
+                     ELSE x
+\* the certificates Signature s carries when its KeyInfo is ki
+CertsOf(ki, s, c) == LET xs == KICertItems(ki) IN [i \in 1..Len(xs) |-> CertName(xs[i], s, c)]
+HasCert(s)      == KICertItems(s.ki) # <<>>                          \* an X509Certificate element is there
 
 ----------------------------------------------------------------------------
 (* validateSignature + goxmldsig.Validate:  "ok" | "absent" | "error" *)
@@ -227,22 +279,37 @@ FindSigSlow(e) == LET ps  == SigPathsPre(e)
 \* a KeyInfo that names the signer's own certificate explicitly is, under this run, the KeyInfo as it was
 \* sent (the same bytes): not a change of what an enclosing signature covers
 RECURSIVE SameKI(_, _)
-SameKI(t, c) == [t EXCEPT !.ki = IF t.k = "Sig" /\ @ = KeyOf(t, c) THEN "cert" ELSE @,
-                          !.ch = [i \in 1..Len(t.ch) |-> SameKI(t.ch[i], c)]]
-NamesCerts == KISet \cap Certs # {}
+SameKI(t, c) == LET ki == t.ki
+                    me == KeyOf(t, c)
+                IN [t EXCEPT !.ki = IF t.k # "Sig" THEN ki
+                                    ELSE [g \in 1..Len(ki) |-> [j \in 1..Len(ki[g]) |-> IF ki[g][j] = me THEN "self" ELSE ki[g][j]]],
+                             !.ch = [i \in 1..Len(t.ch) |-> SameKI(t.ch[i], c)]]
+NamesCerts == \E ki \in KISet : Range(Flat(ki)) \cap Certs # {}
 DigestOK(e, p, s, c) == IF s.cov = "self" THEN Len(p) = 1           \* AttackerSignsLast
                         ELSE LET d == RemoveAt(e, p)                \* e detached, that Signature removed
                              IN (IF NamesCerts THEN SameKI(d, c) ELSE d) = Covered(base, s.cov)
 
-\* getCertBasedOnFingerprint(el): the first ./Signature/KeyInfo/X509Data/X509Certificate (etree path, tags
-\* only) is parsed, hashed with the configured algorithm and compared with the configured string
+\* the etree path ./Signature/KeyInfo/X509Data/X509Certificate from element e (tags only, any namespace):
+\* the certificates of ALL its Signature children, in document order
+PathCerts(e, c) == LET sigs == SelectSeq([i \in 1..Len(e.ch) |-> i], LAMBDA i : e.ch[i].k = "Sig")
+                   IN Flat([j \in 1..Len(sigs) |-> CertsOf(e.ch[sigs[j]].ki, e.ch[sigs[j]], c)])
+FpMatches(t, x) == t.fmt = "canon" /\ x = t.fp                       \* string comparison of the fingerprints
+
+\* getCertBasedOnFingerprint(el): the FIRST element of that path is parsed, hashed with the configured
+\* algorithm and compared with the configured string; that one certificate is the only root
 CertByFingerprint(t, e, c) ==
-  LET certKids == { i \in TagSigs(e) : HasCert(e.ch[i]) }
-  IN IF certKids = {} THEN Err                                        \* "no certificate present"
-     ELSE LET x == CertOf(e.ch[Min(certKids)], c)
+  LET xs == PathCerts(e, c)
+  IN IF xs = <<>> THEN Err                                            \* "no certificate present"
+     ELSE IF "FingerprintAnyCert" \in Deviations
+     THEN \* (deviation) every certificate of the path is parsed and hashed; ANY match accepts, ALL are roots
+          IF \E i \in 1..Len(xs) : ~Parses(xs[i]) THEN Err
+          ELSE IF t.alg \notin SupportedAlgs THEN Err
+          ELSE IF ~ \E i \in 1..Len(xs) : FpMatches(t, xs[i]) THEN Err
+          ELSE Ok(xs)
+     ELSE LET x == xs[1]
           IN IF ~Parses(x) THEN Err                                   \* parseCert
              ELSE IF t.alg \notin SupportedAlgs THEN Err              \* "fingerprint, unknown algorithm"
-             ELSE IF ~(t.fmt = "canon" /\ x = t.fp) THEN Err          \* "fingerprint mismatch" (string comparison)
+             ELSE IF ~FpMatches(t, x) THEN Err                        \* "fingerprint mismatch"
              ELSE Ok(<<x>>)
 
 \* validateSignature, selection of the roots, in the code's order: three guarded branches, then "no certs"
@@ -274,10 +341,12 @@ Verify(e, c) ==
        ELSE LET roots == cr.roots                                     \* MemoryX509CertificateStore.Roots (a list)
                 p  == found[1]
                 s  == At(e, p)
-                ki == IF p = <<dropped>> THEN "none" ELSE s.ki
-                cert == IF ki = "none" THEN (IF Len(roots) = 1 THEN roots[1] ELSE "nocert")   \* "Missing x509 Element"
-                        ELSE IF ki = "rsakeyvalue" THEN "nocert"      \* "missing X509Certificate within KeyInfo"
-                        ELSE CertOf(s, c)
+                ki == IF p = <<dropped>> THEN <<>> ELSE s.ki             \* the KeyInfo goxmldsig unmarshals
+                xs == CertsOf(ki, s, c)                               \* X509Data.X509Certificates (appended over all X509Data)
+                \* verifyCertificate: the certificate that has to verify the signature
+                cert == IF ki = <<>> THEN (IF Len(roots) = 1 THEN roots[1] ELSE "nocert")     \* "Missing x509 Element"
+                        ELSE IF xs = <<>> THEN "nocert"               \* "missing X509Certificate within KeyInfo"
+                        ELSE xs[1]                                    \* X509Certificates[0] - the FIRST one, whatever follows
             IN IF cert \notin Range(roots) THEN "error"               \* verifyCertificate (a "bad" one does not parse)
                ELSE IF ~DigestOK(e, p, s, c) THEN "error"                \* digest over e minus that Signature
                ELSE IF KeyOf(s, c) # cert THEN "error"                \* SignedInfo signature under that certificate
@@ -309,16 +378,38 @@ ParseResponse(r, rp, sigReq0, c) ==
      ELSE IF good = {} THEN Reject("NoValidAssertion")
      ELSE Accept(rp \o cand[Min(good)].p)                             \* first valid one wins
 
+\* The lookups.  Each returns <<>> (error) or <<path>> of the element it finds.
+\* findOneChild(parent, namespace, tag): the direct child of that name in that namespace, if there is exactly one
+OneChild(d, pp, kind) == LET ks == KidsOf(At(d, pp), kind) IN IF Len(ks) = 1 THEN << pp \o <<ks[1]>> >> ELSE <<>>
+\* etree FindElement("//Tag") - a path that starts with / is evaluated from the DOCUMENT ROOT whatever
+\* element it is called on: the first element of that tag (any namespace) in document order; what is
+\* inside ciphertext is no element
+FirstInDocument(d, kind) == LET ps == SelectSeq(PreOrder(d), LAMBDA p : At(d, p).k = kind)
+                            IN IF ps = <<>> THEN <<>> ELSE << ps[1] >>
+
+LookupBody(d)         == OneChild(d, <<>>, "Body")                    \* findOneChild(doc.Root(), soap, "Body")
+LookupArtResp(d, bp)  == OneChild(d, bp, "ArtResp")                   \* findOneChild(soapBodyEl, samlp, "ArtifactResponse")
+\* the Response that is parsed: the child of the ArtifactResponse whose signature was just evaluated
+LookupResponse(d, tp) == IF "ResponseFromDocumentRoot" \in Deviations THEN FirstInDocument(d, "Resp")
+                         ELSE OneChild(d, tp, "Resp")                 \* findOneChild(artifactResponseEl, samlp, "Response")
+
 Run(d, c) ==
   IF base.art = "none"
   THEN ParseResponse(d, <<>>, TRUE, c)                                \* ParseXMLResponse / ParseResponse (POST)
-  ELSE \* ParseXMLArtifactResponse: Envelope/Body/ArtifactResponse by namespace
-    IF ~(d.k = "ArtResp" /\ d.ns) THEN Reject("Envelope")
-    ELSE LET ts == Verify(d, c)
-             rk == KidsOf(d, "Resp")
-         IN IF ts = "error" THEN Reject("ArtSig")
-            ELSE IF Len(rk) # 1 THEN Reject("OneResponse")            \* findOneChild
-            ELSE ParseResponse(d.ch[rk[1]], <<rk[1]>>, ts = "absent", c)
+  ELSE \* ParseXMLArtifactResponse (also reached from ParseResponse with SAMLart, with the body of the SOAP reply)
+    IF ~(d.k = "Env" /\ d.ns) THEN Reject("Envelope")                 \* root is soap:Envelope
+    ELSE LET bp == LookupBody(d)
+         IN IF bp = <<>> THEN Reject("OneBody")
+            ELSE LET tp == LookupArtResp(d, bp[1])
+                 IN IF tp = <<>> THEN Reject("OneArtifactResponse")
+                    ELSE \* parseArtifactResponse: fields (FieldsValid), signature, then the Response
+                      LET art == At(d, tp[1])
+                          ts  == Verify(art, c)
+                          rp  == LookupResponse(d, tp[1])
+                      IN IF ~(art.k = "ArtResp" /\ art.ns) THEN Reject("ArtFields")      \* unmarshal into ArtifactResponse
+                         ELSE IF ts = "error" THEN Reject("ArtSig")
+                         ELSE IF rp = <<>> THEN Reject("OneResponse")
+                         ELSE ParseResponse(At(d, rp[1]), rp[1], ts = "absent", c)
 
 ----------------------------------------------------------------------------
 (* the attacker *)
@@ -335,7 +426,10 @@ FirstSig(t) == Min(TagSigs(t))
 \* CopyForge: an attacker-made element of the same kind, with the target's signatures copied / moved / without
 Forged(t, sameID, sigMode) ==
   LET sigs  == IF sigMode = "none" THEN <<>> ELSE SelectSeq(t.ch, LAMBDA c : c.k = "Sig")
-      inner == IF t.k = "Resp" THEN <<Node("Assn", IF sameID THEN "A0" ELSE "X2", "f", <<>>)>> ELSE <<>>
+      fa    == Node("Assn", IF sameID THEN "A0" ELSE "X2", "f", <<>>)
+      inner == IF t.k = "Resp" THEN <<fa>>
+               ELSE IF t.k = "ArtResp" THEN <<Node("Resp", IF sameID THEN "R0" ELSE "X3", "f", <<fa>>)>>
+               ELSE <<>>
   IN Node(t.k, IF sameID THEN t.id ELSE "X1", "f", sigs \o inner)
 
 Wheres == {"before", "after", "wrapG", "wrapGSigObj", "wrapGWrap", "fInWrapBefore", "fInGSigObj"}
@@ -361,7 +455,7 @@ StripSig == \E p \in Paths(doc) : p # <<>> /\ At(doc, p).k = "Sig" /\ Edit(Remov
 MoveSig == \E p \in Paths(doc) :
   /\ p # <<>> /\ At(doc, p).k = "Sig"
   /\ LET s == At(doc, p)  d1 == RemoveAt(doc, p)
-     IN \E q \in Paths(d1) : /\ At(d1, q).k \notin {"Sig", "EncAssn"}
+     IN \E q \in Paths(d1) : /\ At(d1, q).k \notin {"Sig", "EncAssn"} \cup SoapKinds
                              /\ Edit(SetAt(d1, q, [At(d1, q) EXCEPT !.ch = <<s>> \o @]))
 
 EditID == \E p \in Paths(doc) : /\ At(doc, p).id \in {"R0", "A0", "T0"}
@@ -384,24 +478,75 @@ DuplicateAssertion == \E p \in Paths(doc) :
   /\ p # <<>> /\ At(doc, p).k \in {"Assn", "EncAssn"}
   /\ Edit(ReplaceSeq(doc, p, <<At(doc, p), At(doc, p)>>))
 
-RemoveUnsigned == \E p \in Paths(doc) : p # <<>> /\ At(doc, p).k # "Sig" /\ Edit(RemoveAt(doc, p))
+RemoveUnsigned == \E p \in Paths(doc) : p # <<>> /\ At(doc, p).k \notin {"Sig"} \cup SoapKinds /\ Edit(RemoveAt(doc, p))
 
 ReEncrypt == \E p \in Paths(doc) : p # <<>> /\ At(doc, p).k = "Assn" /\ Edit(SetAt(doc, p, EncF(<<At(doc, p)>>)))
 
 WrongNamespace == \E p \in Paths(doc) : At(doc, p).ns /\ Edit(SetAt(doc, p, [At(doc, p) EXCEPT !.ns = FALSE]))
 
+\* EnvPlace (artifact back channel only): the party in the middle of the back channel adds to the SOAP
+\* envelope an element made from an ArtifactResponse / Response / Assertion of the message - a forged one of
+\* the same kind (CopyForge: same or fresh ID, signatures none / copied / moved over), a verbatim copy, or
+\* the element itself moved away - in a soap:Header before or after soap:Body (directly, inside an element
+\* of a foreign namespace, or itself in a foreign namespace), as a direct child of the Envelope, inside
+\* soap:Body as a sibling before or after what is there, or in a second soap:Body
+EnvWheres == {"hdrBefore", "hdrAfter", "hdrBeforeNs", "hdrBeforeForeign", "envBefore", "envAfter",
+              "bodyBefore", "bodyAfter", "body2Before", "body2After"}
+EnvPlace == \E p \in Paths(doc), mode \in {"forge", "copy", "move"}, sameID \in BOOLEAN,
+               sigMode \in {"none", "copy", "move"}, w \in EnvWhereSet :
+  LET t  == At(doc, p)
+      x  == IF mode = "forge" THEN Forged(t, sameID, sigMode) ELSE t
+      d1 == IF mode = "move" THEN RemoveAt(doc, p)
+            ELSE IF mode = "forge" /\ sigMode = "move" THEN SetAt(doc, p, NoSigs(t))
+            ELSE doc
+      bodies == { i \in 1..Len(d1.ch) : d1.ch[i].k = "Body" }
+      bi == Min(bodies)
+      top(y, i) == [d1 EXCEPT !.ch = InsertAt(@, i, y)]
+  IN /\ doc.k = "Env" /\ p # <<>>
+     /\ t.k \in (IF mode = "forge" THEN {"ArtResp", "Resp", "Assn"} ELSE {"ArtResp", "Resp", "Assn", "EncAssn"})
+     /\ (mode # "forge" => sameID /\ sigMode = "none")               \* one representative
+     /\ (sigMode # "none" => TagSigs(t) # {})
+     /\ bodies # {}
+     /\ CASE w = "hdrBefore"        -> Edit(top(Hdr(<<x>>), bi))
+          [] w = "hdrAfter"         -> Edit(top(Hdr(<<x>>), bi + 1))
+          [] w = "hdrBeforeNs"      -> Edit(top(Hdr(<< [Wrap(<<x>>) EXCEPT !.ns = FALSE] >>), bi))
+          [] w = "hdrBeforeForeign" -> x.ns /\ Edit(top(Hdr(<< [x EXCEPT !.ns = FALSE] >>), bi))
+          [] w = "envBefore"        -> Edit(top(x, bi))
+          [] w = "envAfter"         -> Edit(top(x, bi + 1))
+          [] w = "bodyBefore"       -> Edit([d1 EXCEPT !.ch[bi].ch = <<x>> \o @])
+          [] w = "bodyAfter"        -> Edit([d1 EXCEPT !.ch[bi].ch = @ \o <<x>>])
+          [] w = "body2Before"      -> Edit(top(Body2(<<x>>), bi))
+          [] w = "body2After"       -> Edit(top(Body2(<<x>>), bi + 1))
+
 Init == /\ base \in BaseSet
         /\ doc = BaseDoc(base)
         /\ n = 0
 
-AllProds == {"Forge", "StripSig", "MoveSig", "EditID", "EditSignedField", "ReSign", "EditKeyInfo",
-             "DuplicateAssertion", "RemoveUnsigned", "ReEncrypt", "WrongNamespace"}
+\* the productions on the SAML content (every entry point) ...
+TreeProds == {"Forge", "StripSig", "MoveSig", "EditID", "EditSignedField", "ReSign", "EditKeyInfo",
+              "DuplicateAssertion", "RemoveUnsigned", "ReEncrypt", "WrongNamespace"}
+\* ... and on the SOAP envelope of the artifact back channel
+EnvProds == {"EnvPlace"}
+AllProds == TreeProds \cup EnvProds
 \* the family that touches who signed and which certificate is named (used where the trust configuration
 \* is crossed with two attacker steps)
 KeyProds == {"StripSig", "ReSign", "EditKeyInfo", "EditSignedField", "ReEncrypt"}
-KIClassic == {"cert", "none", "rsakeyvalue", "othercert"}
+\* KeyInfo variants.  One item: as sent, no KeyInfo, an RSAKeyValue only, the substituted certificate
+KIClassic == {AsSent, <<>>, <<KVGroup>>, KI1("other")}
 \* explicit certificates: the attacker names any certificate he knows of, or something that is none
-KINamed   == {"cert", "none", "rsakeyvalue", "Kidp1", "Kidp2", "Katt", "bad"}
+KINamed   == {AsSent, <<>>, <<KVGroup>>, KI1("Kidp1"), KI1("Kidp2"), KI1("Katt"), KI1("bad")}
+\* SEQUENCES: several certificates in one X509Data / in several X509Data elements, with other items.
+\* "self" on a signature the attacker made is the OUTSIDER's certificate, on a genuine one the IdP's:
+\*   [outsider, trusted] [trusted, outsider] [trusted, trusted-other] duplicates, a certificate plus an
+\*   RSAKeyValue (either order), two X509Data, an X509Data without certificate first, one that is none behind
+KISeq     == { << <<"self", "Kidp1">> >>, << <<"Kidp1", "self">> >>, << <<"self", "Katt">> >>, << <<"Katt", "self">> >>,
+               << <<"Kidp1", "Kidp2">> >>, << <<"Kidp2", "Kidp1">> >>, << <<"self", "self">> >>,
+               << <<"self">>, KVGroup >>, << KVGroup, <<"self">> >>,
+               << <<"self">>, <<"Kidp1">> >>, << <<"Kidp1">>, <<"self">> >>, << <<"Katt">>, <<"Kidp1">> >>,
+               << <<"subj">>, <<"self">> >>, << <<"self", "bad">> >>, << <<"Kenc", "Kidp1", "Katt">> >> }
+KIAll     == KINamed \cup KISeq
+\* the sequences that are crossed with a second attacker step (two steps of the key family)
+KICross   == KINamed \cup { << <<"self", "Kidp1">> >>, << <<"Kidp1", "self">> >>, << <<"Katt">>, <<"Kidp1">> >>, << <<"self">>, KVGroup >> }
 
 Next == /\ n < K
         /\ \/ "Forge" \in Prods /\ Forge
@@ -415,6 +560,7 @@ Next == /\ n < K
            \/ "RemoveUnsigned" \in Prods /\ RemoveUnsigned
            \/ "ReEncrypt" \in Prods /\ ReEncrypt
            \/ "WrongNamespace" \in Prods /\ WrongNamespace
+           \/ "EnvPlace" \in Prods /\ EnvPlace
 
 Spec == Init /\ [][Next]_vars
 
@@ -480,13 +626,27 @@ Class(c) == IF MustAccept(c) THEN "MustAccept" ELSE IF MustRejectFast(c) THEN "M
 \* the machine's answer and the statement's class for one run configuration
 Pred(c) == LET r == Run(doc, c)
            IN [t |-> c.t.name, g |-> c.g, cls |-> Class(c), v |-> r.v, ret |-> r.ret, step |-> r.step]
-Preds == [i \in 1..Len(RunCfgSeq) |-> Pred(RunCfgSeq[i])]
 Idx == 1..Len(RunCfgSeq)
+\* (evaluation strategy, no part of the statement)  Many run configurations are the same to every operator
+\* above: the machine reads a configuration only through CodeRoots - GetIDPSigningCerts(t.md), t.pin, t.fp,
+\* t.alg, t.fmt - and g; the properties read it only through TrustedKeys(t), Clean(t) and g.  Machine and
+\* class are evaluated once per class of configurations with the same projection (the first of the class,
+\* Reps) and copied to the others; PredsPlain is the definition, ProjSound (checked by hand in
+\* SigTree_C01c.cfg, see fixes/C01c.md) says the two agree.
+Proj(c) == [r1 |-> GetIDPSigningCerts(c.t.md), pin |-> c.t.pin, fp |-> c.t.fp, alg |-> c.t.alg, fmt |-> c.t.fmt,
+            tk |-> TrustedKeys(c.t), clean |-> Clean(c.t), g |-> c.g]
+Projs  == TLCEval([i \in Idx |-> Proj(RunCfgSeq[i])])
+RepIdx == TLCEval([i \in Idx |-> Min({ j \in Idx : Projs[j] = Projs[i] })])
+Reps   == { i \in Idx : RepIdx[i] = i }
+PredsPlain == [i \in Idx |-> Pred(RunCfgSeq[i])]
+Preds      == LET rp == TLCEval([i \in Reps |-> Pred(RunCfgSeq[i])])      \* TLCEval: evaluated once, eagerly
+              IN TLCEval([i \in Idx |-> [rp[RepIdx[i]] EXCEPT !.t = RunCfgSeq[i].t.name]])
+ProjSound  == Preds = PredsPlain
 
 \* "whenever the API returns an assertion, its identity-bearing content was covered by a trusted signature"
-OnlySignedContentOn(ps) == \A i \in Idx : ps[i].v = "accept" => Trusted(doc, ps[i].ret, RunCfgSeq[i])
-RejectsUntrustedOn(ps)  == \A i \in Idx : ps[i].cls = "MustReject" => ps[i].v = "reject"
-AcceptsGenuineOn(ps)    == \A i \in Idx : ps[i].cls = "MustAccept" => ps[i].v = "accept"
+OnlySignedContentOn(ps) == \A i \in Reps : ps[i].v = "accept" => Trusted(doc, ps[i].ret, RunCfgSeq[i])
+RejectsUntrustedOn(ps)  == \A i \in Reps : ps[i].cls = "MustReject" => ps[i].v = "reject"
+AcceptsGenuineOn(ps)    == \A i \in Reps : ps[i].cls = "MustAccept" => ps[i].v = "accept"
 
 \* "no ... re-encryption ... makes it return any other content": encrypting a plaintext assertion to the SP
 \* never yields other content, and where nothing above the assertion is signed (the ciphertext is then
@@ -502,7 +662,7 @@ EncryptionTransparentOn(ps) ==
           par == At(doc, SubSeq(p, 1, Len(p) - 1))
           bare == /\ \A m \in 0..(Len(p) - 1) : TagSigs(At(doc, SubSeq(p, 1, m))) = {}
                   /\ Len(KidsOf(par, "Assn")) + Len(KidsOf(par, "EncAssn")) = 1
-      IN \A i \in Idx :
+      IN \A i \in Reps :
            LET r1 == ps[i]
                r2 == Run(d2, RunCfgSeq[i])
            IN /\ (r2.v = "accept" => Trusted(d2, r2.ret, RunCfgSeq[i]))
@@ -612,6 +772,11 @@ RunsDeep     == RunsQuick \o << [t |-> FP, g |-> "Kidp1"] >>
 RunsThorough == RunsQuick \o << [t |-> T1, g |-> "Kidp2"], [t |-> FP, g |-> "Kidp1"], [t |-> FPX, g |-> "Kidp2"],
                                 [t |-> PINX, g |-> "Kidp1"], [t |-> PINX, g |-> "Kidp2"] >>
 \* two attacker steps of the key family under the configurations in which two sources of certificates meet
+\* the envelope family: what the lookups find does not depend on the trust configuration; it is crossed
+\* with one configuration of each kind
+RunsEnv      == RunsDeep \o << [t |-> PINX, g |-> "Kidp1"] >>
+\* the fingerprint configurations (for the model-level mutation test of FingerprintAnyCert)
+RunsFp       == BothKeys(<< ByName("fp1-sha256:md=none"), ByName("fp1-sha512:md=s2") >>)
 RunsCross    == BothKeys(<< ByName("pin1:md=s2"), ByName("pin1:md=s1s2e"), ByName("fp1-sha256:md=s2"), ByName("fp1-sha512:md=s1"),
                             ByName("md:s12"), ByName("md:u1s2"), ByName("md:s1e2"), ByName("md:s1s1"), ByName("md:s1/s2") >>)
 
